@@ -258,7 +258,7 @@ impl Sim {
         let world = World {
             pid,
             ppid: 1,
-            threads: vec![ThreadSpec { tid: pid, comm: B::s("child"), regs: vec![1; NREGS], fp: B(vec![0; 512]), dregs: vec![0; 8], program: Program::Parked, foreign_tracer: false, zombie: false, stop_latency_ns: 0, comm_fault: None, blocked_until_ns: 0 }],
+            threads: vec![ThreadSpec { tid: pid, comm: B::s("child"), regs: vec![1; NREGS], fp: B(vec![0; 512]), dregs: vec![0; 8], program: Program::Parked, foreign_tracer: false, zombie: false, stop_latency_ns: 0, comm_fault: None, blocked_until_ns: 0, compat32: false }],
             regions,
             uname: vec!["Linux".into(), "r".into(), "v".into(), "x86_64".into()],
             ..Default::default()
